@@ -19,7 +19,7 @@
     Not covered by a theorem: the rendering of errors and lexer states (Display / Debug), which the
     correspondence run exercises under catch_unwind on every returned and collected error and every
     lexer state; panics inside dependencies; stack exhaustion. *)
-From Tephra Require Import MetricsSpec CLexer LexerFacts Run Peg RunCore RunTotal RunBracket RunSafe RunTerm.
+From Tephra Require Import MetricsSpec MetricsFacts CLexer LexerFacts Run Peg RunCore RunTotal RunBracket RunSafe RunTerm Source SourceFacts Render RenderTotal.
 
 Theorem C01_lexer_operations_never_panic :
   forall m, 1 <= tabw m -> forall t, wf_text t ->
@@ -122,3 +122,21 @@ Example C01_example :
   end.
 Proof. vm_compute. repeat split; discriminate. Qed.
 Print Assumptions C01_example.
+
+(** formatting: displaying any canonical span of any source (root text or window) with any highlights never
+    fails in the rendering model - widening to lines, collecting the pieces, clipping each, laying out rows *)
+Theorem C01_rendering_total :
+  forall m, 1 <= tabw m -> forall us, wf_units m us -> forall off name i j named hls,
+  i <= j -> j <= length us ->
+  exists sd, sd_new (mksource (ctext m us) name m off) (mkspan (gpos m us off i) (gpos m us off j)) named hls = Ok sd
+    /\ exists cells, sd_render (mksource (ctext m us) name m off) sd = Ok cells.
+Proof. exact render_total. Qed.
+Print Assumptions C01_rendering_total.
+
+Theorem C01_report_rendering_total :
+  forall m, 1 <= tabw m -> forall us, wf_units m us -> forall off name msg ty code sds,
+  Forall (fun sd => exists i j named hls, i <= j /\ j <= length us /\
+            sd_new (mksource (ctext m us) name m off) (mkspan (gpos m us off i) (gpos m us off j)) named hls = Ok sd) sds ->
+  exists cells, cd_render (mksource (ctext m us) name m off) (mkcd msg ty code sds) = Ok cells.
+Proof. exact cd_render_total. Qed.
+Print Assumptions C01_report_rendering_total.
